@@ -52,6 +52,10 @@ impl Block for SignalSourceComplex {
     fn work(&mut self) -> Result<BlockRet> {
         let mut o = self.dst.write_buf()?;
         let n = o.len();
+        if n == 0 {
+            // Output full: wait for room instead of polling.
+            return Ok(BlockRet::WaitForStream(&self.dst, 1));
+        }
         for (to, from) in o.slice().iter_mut().zip(self.take(n)) {
             *to = from;
         }
@@ -103,6 +107,10 @@ impl Block for SignalSourceFloat {
     fn work(&mut self) -> Result<BlockRet> {
         let mut o = self.dst.write_buf()?;
         let n = o.len();
+        if n == 0 {
+            // Output full: wait for room instead of polling.
+            return Ok(BlockRet::WaitForStream(&self.dst, 1));
+        }
         o.slice()
             .iter_mut()
             .zip(self)
